@@ -1,1 +1,59 @@
-fn main(){}
+//! seqio_verif <ID> quick|thorough        run the check for one property
+//! seqio_verif <ID> replay <file>         re-run one replay file
+
+mod driver;
+mod engine;
+mod gen;
+mod interp;
+mod light;
+mod model;
+mod policy;
+mod props;
+mod source;
+mod util;
+
+use engine::Tier;
+
+pub fn interp_livelock(src: &source::SharedLog, f: model::Format) -> engine::CheckResult {
+    if src.borrow().budget_exceeded {
+        return Err(engine::Failure::new(
+            format!("{}/livelock-step-budget", light::fmt_name(f)),
+            format!("the reader made more than the budgeted number of source calls ({}): livelock", src.borrow().calls.len()),
+        ));
+    }
+    Ok(())
+}
+
+fn main() {
+    let args: Vec<String> = std::env::args().collect();
+    if args.len() < 3 {
+        eprintln!("usage: seqio_verif <ID> quick|thorough | <ID> replay <file>");
+        std::process::exit(2);
+    }
+    engine::install_panic_hook();
+    let id = args[1].as_str();
+    let tier = match args[2].as_str() {
+        "quick" => Tier::Quick,
+        "thorough" => Tier::Thorough,
+        "replay" => Tier::Quick,
+        t => {
+            eprintln!("unknown tier {}", t);
+            std::process::exit(2);
+        }
+    };
+    if args[2] == "replay" {
+        if args.len() < 4 {
+            eprintln!("replay needs a file");
+            std::process::exit(2);
+        }
+        std::process::exit(props::replay(id, &args[3]));
+    }
+    let code = match id {
+        "C01" => props::c01::run(tier),
+        _ => {
+            eprintln!("unknown property {}", id);
+            2
+        }
+    };
+    std::process::exit(code);
+}
